@@ -150,8 +150,15 @@ async def _collect_async():
             d = classify(h)
             d["msg_id"] = i
             handlers.append(d)
+        from ipv8.community import Community as _C
+        from ipv8.lazy_community import EZPackOverlay as _E
+        overrides = [nm for nm, base in (("_verify_signature", _E), ("_ez_unpack_auth", _E), ("_ez_pack", _E),
+                                         ("ezr_pack", _E), ("_ez_unpack_noauth", _E), ("on_packet", _C),
+                                         ("add_message_handler", _C))
+                     if getattr(cls, nm, None) is not getattr(base, nm)]
+        overrides += [nm for nm in ("_verify_signature", "on_packet", "_ez_unpack_auth") if nm in vars(o)]   # per instance
         out.append({"overlay": cls.__name__, "module": cls.__module__, "prefix": bytes(o.get_prefix()),
-                    "handlers": handlers, "cls": cls})
+                    "handlers": handlers, "cls": cls, "overrides": overrides})
         await node.stop()
     return out
 
@@ -683,7 +690,8 @@ def translate(tables=None):
                 lean_kind = "rawOther"
             hs.append(f"    {{ msgId := {h['msg_id']}, name := {_lean_str(h['name'])}, kind := .{lean_kind}, "
                       f"payloads := [{', '.join(_lean_str(p) for p in h['payloads'])}] }}")
-        rows.append(f"  {{ name := {_lean_str(t['overlay'])}, pfx := {_lean_bytes(t['prefix'])}, handlers := [\n"
+        rows.append(f"  {{ name := {_lean_str(t['overlay'])}, pfx := {_lean_bytes(t['prefix'])}, "
+                    f"overrides := [{', '.join(_lean_str(x) for x in t.get('overrides', []))}], handlers := [\n"
                     + ",\n".join(hs) + "] }")
     parts.append("/-- the wrapper programs in force -/")
     parts.append("def progs : Progs :=\n  { signed := lazyWrapper, signedWd := lazyWrapperWd, unsigned := lazyWrapperUnsigned,\n"
